@@ -60,7 +60,7 @@ class Problem:
         self.hi = np.array([2.0, 6.283185307179586, 5.0][:d])
         w = self.hi - self.lo
         self.mu = self.lo + w * np.array([0.55, 0.4, 0.6][:d])
-        self.sig = w * np.array([0.21, 0.33, 0.17][:d])
+        self.sig = w * np.array([0.21, 0.33, 0.17][:d]) * float(case.get("sharp", 1.0))
         self.wgt = np.array([1.0, np.sqrt(2.0), np.pi / 2][:d])
         self.pm = self.lo + w * np.array([0.3, 0.62, 0.45][:d])
         self.pc = np.array([0.37, 0.11, 0.53][:d]) / w
